@@ -909,7 +909,7 @@ class HelperSym(XSym):
             return BufV(Op("dequeRebuild", "Buf", mt, src.term), Num(mt, "Nat"))
         if f in ("bisect", "bisect_right", "bisect.bisect", "bisect.bisect_right"):
             b = self.ev(n.args[0], env) if n.args else None
-            if not (len(n.args) == 2 and isinstance(b, BufV) and set(kw) == {"key"} and RS.Sym.is_timestamp_key(kw["key"])):
+            if not (len(n.args) == 2 and isinstance(b, BufV) and set(kw) == {"key"} and self.is_timestamp_key(kw["key"], env)):
                 raise Unsupported(f"not bisect(self._buffer, <key>, key=lambda s: s.timestamp): {ast.unparse(n)[:80]}")
             k = self.ev(n.args[1], env)
             if not (isinstance(k, Num) and k.ty == "Int"):
@@ -950,7 +950,7 @@ class HelperSym(XSym):
         if f in ("timedelta", "datetime.timedelta"):
             before = len(self.fails)
             r = super().call(n, env)
-            if isinstance(r, RS.Est):
+            if isinstance(r, RS.Est) or (isinstance(r, Num) and r.term == V("est")):
                 del self.fails[before:]  # the float estimate is an input of the translation (read back from the code)
             return r
         return super().call(n, env)
